@@ -13,12 +13,12 @@ Theorem C17_never_reports_wildcards fi s : report_atom fi s ARange = [] /\ foral
 Proof. exact (never_reports_wildcards fi s). Qed.
 Print Assumptions C17_never_reports_wildcards.
 
-Theorem C17_complete_restraint_silent fi s atoms : suffix_ok s ->
+Theorem C17_complete_restraint_silent fi s atoms : suffix_ok fi s ->
   (forall a, In a atoms -> must_not_report fi s a) -> reported fi s atoms = [].
 Proof. exact (complete_restraint_silent fi s atoms). Qed.
 Print Assumptions C17_complete_restraint_silent.
 
-Theorem C17_missing_atom_reported fi s a atoms : suffix_ok s -> In a atoms -> must_report fi s a -> reported fi s atoms <> [].
+Theorem C17_missing_atom_reported fi s a atoms : suffix_ok fi s -> In a atoms -> must_report fi s a -> reported fi s atoms <> [].
 Proof. exact (missing_atom_reported fi s a atoms). Qed.
 Print Assumptions C17_missing_atom_reported.
 
@@ -32,7 +32,7 @@ Theorem C17_reported_bare_absent fi s atoms name :
 Proof. exact (reported_bare_absent fi s atoms name). Qed.
 Print Assumptions C17_reported_bare_absent.
 
-Theorem C17_reported_exactly fi s atoms name n : suffix_ok s ->
+Theorem C17_reported_exactly fi s atoms name n : suffix_ok fi s ->
   (exists o, res_of o = n /\ In (name, o) (reported fi s atoms)) <->
   (exists a, In a atoms /\ In (name, n) (asked fi s a) /\ has_atom fi name n = false).
 Proof. exact (reported_exactly fi s atoms name n). Qed.
@@ -51,3 +51,11 @@ Theorem C17_star_example :
   reported fi SNone [AStar (lit "N1"); AStar (lit "C2")] = [(lit "C2", Some 2%Z)].
 Proof. exact (star_example ). Qed.
 Print Assumptions C17_star_example.
+
+Theorem C17_keyword_star_example :
+  let fi := {| fi_atoms := [(lit "O1", 0%Z); (lit "N1", 1%Z); (lit "C2", 1%Z); (lit "N1", 2%Z)];
+               fi_residues := [(1%Z, lit "TOL"); (2%Z, lit "TOL")] |} in
+  reported fi SStar [AName (lit "N1") None; AName (lit "C2") None] = [(lit "C2", Some 2%Z)]
+  /\ suffix_ok fi SStar.
+Proof. exact (keyword_star_example ). Qed.
+Print Assumptions C17_keyword_star_example.
